@@ -78,7 +78,7 @@ def run(ctx):
         for T, (code, where) in sorted(suspects.items()):
             ctx.broken.append("inclusion analysis: %s: %s [%s]" % (T, DIAG_CODES.get(code, "outcome other than acceptance possible"), where))
         ctx.stats["inclusion_suspects"] = {T: [c, w] for T, (c, w) in suspects.items()}
-    n = 150 if ctx.tier == "thorough" else 30
+    n = 500 if ctx.tier == "thorough" else 30
     reps = (0, 1, 2, 3) if ctx.tier == "thorough" else (0, 1, 2)
     # "the library's own canonical spelling": every example is passed once through the field's own
     # parser and printer (by the type the message's layout uses for that tag); an example of the documented
